@@ -255,6 +255,27 @@ class Interrupt(InstructionGenerator):
         return self, tuple(out)
 
 
+class RandomDraw(InstructionGenerator):
+    """draws from the process-wide ``random`` module, as examples/cosim_custom_dispatcher.py does (random.choices /
+    random.choice): every step it repositions k vehicles picked with random.sample. Loading a scenario seeds that module, so
+    the draws of a freshly loaded simulation are a function of the step sequence alone."""
+
+    def __init__(self, k: int = 2):
+        self.k = k
+
+    @property
+    def name(self) -> str:
+        return "RandomDraw"
+
+    def generate_instructions(self, sim, env):
+        vids = list(sim.get_vehicle_ids())
+        out = []
+        for vid in random.sample(vids, min(self.k, len(vids))):
+            other = sim.vehicles[random.choice(vids)]
+            out.append(RepositionInstruction(vid, other.position.link_id) if random.random() < 0.7 else IdleInstruction(vid))
+        return self, tuple(out)
+
+
 class Stateful(InstructionGenerator):
     """a generator in hive's immutable style whose behaviour depends on state it hands on by returning an updated copy
     of itself (as examples/cosim_custom_dispatcher.py does): every k-th call it repositions one vehicle. If a stale copy
@@ -322,6 +343,8 @@ def build_generators(ctrl: Dict[str, Any], env, seed: int):
             kw = dict(item["interrupt"])
             kw.setdefault("seed", seed)
             out.append(Interrupt(**kw))
+        elif isinstance(item, dict) and "random_draw" in item:
+            out.append(RandomDraw(**item["random_draw"]))
         elif isinstance(item, dict) and "stateful" in item:
             out.append(Stateful(**item["stateful"]))
         elif item == "Pending":
